@@ -244,6 +244,12 @@ func TestC15(t *testing.T) {
 		default:
 			fp := genFramePlan(rt, cells)
 			p.Mode, p.Kind, p.CemiKind, p.Frame = "frame", fp.Kind, fp.CemiKind, fp.Frame
+			// an application unit without payload (the shape of a group read) is encodable too: the
+			// encoder must then write the one mandatory octet itself instead of leaving what was there
+			if c := p.Frame.Cemi; c != nil && c.LData != nil && !c.LData.TPDU.Control && rapid.IntRange(0, 3).Draw(rt, "empty-payload") == 0 {
+				c.LData.TPDU.Data = nil
+				rec.Class("empty-application-payload")
+			}
 		}
 		rec.Class("mode:" + p.Mode)
 		if p.Mode == "frame" {
